@@ -30,6 +30,9 @@ DFSStars(own, stars, m, i, acc, visited) ==
        IN DFSStars(own, stars, m, i + 1, acc \cup add, r[2])
 ExportsDFS(own, stars, m) == DFS(own, stars, m, {})[1]
 
+\* own names take precedence: a name a module exports itself is provided by that module, whatever its stars export
+OwnWins(ownNames, providers, m) == \A n \in ownNames : n \in DOMAIN providers => providers[n] = m
+
 (***************************************************************************)
 (* Well-formedness of a projected symbol table: a sequence of records      *)
 (*   [id, parent (-1 for none), children, members, exports (name -> id),   *)
